@@ -59,8 +59,22 @@ impl BlockAllocator {
         if data.offset >= MAX_FILE_SIZE {
             // mark previous file as fully allocated before switching
             FileStateTracker::set_fully_allocated(prev_block_file_path);
-            data.file_path = self.paths.create_new_file()?;
-            data.mmap = SharedMmapKeeper::get_mmap_arc(&data.file_path)?;
+            // release the spin lock on failure: returning with it held makes every
+            // later allocation spin forever
+            data.file_path = match self.paths.create_new_file() {
+                Ok(p) => p,
+                Err(e) => {
+                    self.unlock();
+                    return Err(e);
+                }
+            };
+            data.mmap = match SharedMmapKeeper::get_mmap_arc(&data.file_path) {
+                Ok(m) => m,
+                Err(e) => {
+                    self.unlock();
+                    return Err(e);
+                }
+            };
             data.offset = 0;
             data.used = 0;
             debug_print!("[alloc] rolled over to new file: {}", data.file_path);
@@ -110,8 +124,21 @@ impl BlockAllocator {
         let data = unsafe { &mut *self.next_block.get() };
         if data.offset + alloc_size > MAX_FILE_SIZE {
             let prev_block_file_path = data.file_path.clone();
-            data.file_path = self.paths.create_new_file()?;
-            data.mmap = SharedMmapKeeper::get_mmap_arc(&data.file_path)?;
+            // release the spin lock on failure (see get_next_available_block)
+            data.file_path = match self.paths.create_new_file() {
+                Ok(p) => p,
+                Err(e) => {
+                    self.unlock();
+                    return Err(e);
+                }
+            };
+            data.mmap = match SharedMmapKeeper::get_mmap_arc(&data.file_path) {
+                Ok(m) => m,
+                Err(e) => {
+                    self.unlock();
+                    return Err(e);
+                }
+            };
             data.offset = 0;
             // mark the previous file fully allocated now
             FileStateTracker::set_fully_allocated(prev_block_file_path);
